@@ -6,31 +6,47 @@ CFG = {
     "drivers": ["C14"],
     "stateful": False,
     "trivial_prefix": (),
-    "rule": "three stateless streams through the exported vxfw API (plus the render entry hook): "
+    "rule": "stateless streams through the exported vxfw API, the render entry hooks and the real App.Run: "
             "ws = NewSurface(W,H)+WriteCell(col,row) for every size in {0,1,2,255,256,257,300}^2 and every "
             "coordinate class (0,1,W-1,W,W+1,65535 x 0,1,H/2,H-1,H,H+1,65535 and the rows where row*W crosses 65536), exhaustive; "
             "draw = Draw(ctx) of Text/RichText (hard and soft wrap), TextField, Button, Center and nestings to depth 3 for "
             "Max in {0,1,2,3,5,80,255,256,65534,65535}^2 with contents empty / multi-line / wide / longer / taller than the "
-            "constraint (lines from the real scanners and the real Characters); render = hand-built surface trees (depth <= 3, "
-            "<= 4 children, offsets from -2 to beyond the parent, z in -1..2, root smaller/equal/larger than the screen) painted on "
-            "screens <= 6x4, bounded-exhaustive single-child and two-children families plus random trees. distinct = distinct op line.",
+            "constraint (lines from the real scanners and the real Characters); "
+            "drawz = Draw(ctx) of a real list.Dynamic in its fresh scroll state (DrawCursor on/off, Gap 0..2, 0..9 items Text/RichText/TextField "
+            "and the widgets a list cannot hold: Button, Center, Dynamic; also inside a Center) for the same Max grid and random small Max, "
+            "the items Draw drew recorded through the Builder, sizes and origins of every surface compared; "
+            "render = hand-built surface trees (depth <= 3, <= 4 children, offsets from -2 to beyond the parent, z in -1..2, root smaller/equal/larger "
+            "than the screen, every root size 0..5 x 0..4 on a 4x3 screen, surfaces with more than 65535 cells) painted on screens <= 6x4 through the hook "
+            "that evaluates App.Run's render call; run = the same families as the root surface of one frame of the real App.Run on a fake console; "
+            "bare = random trees through the bare recursive render. distinct = distinct op line.",
     "trusted_base": ["the wrap scanners (C16), bufio.Scanner and Characters are parameters: the harness passes the lines the real "
-                     "scanners produce for the constraint; theorems hold for every list of lines",
-                     "hook vxfw.VerifC14Render (calls the unexported Surface.render) and the C11 snapshot hook",
-                     "sort.Slice is modelled as a stable sort (it is an insertion sort below 12 elements); trees have < 12 children"],
-    "assumptions": ["constraints for widgets that allocate Max.Width x Max.Height buffers (Center, Button) are generated only up to "
+                     "scanners produce for the constraint each leaf receives; theorems hold for every list of lines",
+                     "hooks vxfw.VerifC14Render / VerifC14RenderRoot (call the unexported Surface.render; facts_run_render ties the latter's window "
+                     "expression to the one in App.Run, and the run stream drives App.Run itself), VerifC14AppVaxis and the C11 snapshot hook",
+                     "sort.Slice is modelled as a stable sort (it is an insertion sort below 12 elements); trees have < 12 children",
+                     "which items a list.Dynamic draws (scroll state, heights: property C19) is a parameter of the model; the correspondence run "
+                     "covers the fresh scroll state; the gutter and cursor-glyph cells of Dynamic are not modelled (no effect on sizes)"],
+    "assumptions": ["constraints for widgets that allocate Max.Width x Max.Height buffers (Center, Button, Dynamic) are generated only up to "
                     "2,000,000 cells: larger ones are covered by the theorems, not by the correspondence run"],
     "level_text": "Proved for all uint16 constraints, contents and sizes: newSurface_len, writeCell_exact (inside: exactly cell "
-                  "row*W+col as a natural number changes; outside: nothing, never a panic), size_le_max for every built-in widget and "
-                  "nesting (only the documented bounded-constraint panic of Center/Button remains), center_fits (child inside, margins "
-                  "within one), render_paints (the rendered screen equals the painter's algorithm of Spec.Surface: every surface at "
-                  "parent origin + offset, clipped to itself and its ancestors and the window, children after parents in z-order with "
-                  "ties in child order; root's own rectangle not clipping = finding F114), zorder_is_spec, render_clip, "
-                  "render_last_wins, paint_structure, child_window_clip. Witness/F39-F42 prove that the uint16 / non-strict variants (the code before the fixes) fail.",
-    "level_note": "Tie: Gen/SurfaceFacts.lean regenerated each run gives the model its arithmetic (int vs uint16 length and index, >= vs > "
-                  "guards); src_arith_exact / src_guards_strict / facts_surface fail to compile when the source goes back. Correspondence on "
-                  "the real widgets and a real Vaxis. Only validated by correspondence: that the Lean transcription of the Draw loops and of render "
-                  "equals the Go code; widget content placement (which grapheme where) is compared model vs code but is outside C14.",
-    "technique": "Lean 4 proof (UInt16 arithmetic, structural/mutual induction) + extractor + differential correspondence",
+                  "row*W+col as a natural number changes; outside: nothing, never a panic); size_le_max for every built-in widget — Text, RichText, "
+                  "TextField, Center, Button and list.Dynamic (for every list of items it draws) — and every nesting: either the tree is accepted and the "
+                  "surface is no larger than Max, or it stops with the documented bounded-constraint panic, which happens exactly when a Center/Button/Dynamic "
+                  "of the tree receives an unbounded Max (accepts_plain, rejects_unbounded, accepts_noDynamic, dynamic_child_needs_unbounded_ok: a Center/Button/"
+                  "Dynamic item of a list always panics); widget_inventory_complete (the Draw-bearing types of vxfw/*/ in the source = the modelled widgets); "
+                  "center_fits (child inside, margins within one); render_paints at full strength for the render call of App.Run (the rendered screen equals the "
+                  "painter's algorithm of Spec.Surface: every surface at parent origin + offset, clipped to itself and every ancestor, the root included, and "
+                  "the screen, children after parents in z-order with ties in child order; F114 is fixed), run_frame_paints (Clear + render), render_bare_paints "
+                  "(the recursive render without the root window), zorder_is_spec, render_clip, render_last_wins, paint_structure, child_window_clip. "
+                  "Witness/F39-F42, F114 prove that the uint16 / non-strict / un-clipped variants (the code before the fixes) fail.",
+    "level_note": "Tie: Gen/SurfaceFacts.lean regenerated each run. Used by the model: int vs uint16 length and index, >= vs > guards, which window App.Run "
+                  "renders into (renderRoot), which widgets have the bounded-constraint panic. Pinned by theorems that stop compiling when the source changes "
+                  "(src_arith_exact, src_guards_strict, facts_surface, facts_run_render, facts_layout, widget_inventory_complete, and one Props.C14Facts theorem "
+                  "per function for the alpha-normalised statement skeletons of Surface.render, App.Run's frame clause, Text/RichText Draw/drawSoftwrap/"
+                  "findContainerSize, Center.Draw, Button.Draw, TextField.Draw). Validated by correspondence only: that the Lean transcription of those bodies "
+                  "means what the Go statements mean (the skeleton pins fix *which* statements were transcribed, the differential run compares behaviour), and "
+                  "Dynamic's placement of its items. Modelled-not-verified: widget content placement (which grapheme where) is compared model vs code but is "
+                  "outside C14; Dynamic's scroll logic is C19's.",
+    "technique": "Lean 4 proof (UInt16 arithmetic, structural/mutual induction) + go/ast extractor (facts, skeletons, inventory) + differential correspondence incl. the real App.Run",
     "timeout": 1200,
 }
